@@ -115,7 +115,7 @@ let run (st : stream) (b : Buffer.t) : unit =
            | "fit" | "override" ->
              let kp = next_int st in let i = next_int st in let dl = next_int st in let kr = next_int st in
              (match pick all kp, pick all kr with
-              | Some p, Some r when not (vid_eqb p r) ->
+              | Some p, Some r ->
                 (match segment_at p i dl with
                  | None -> OSkip
                  | Some (a, bb) ->
